@@ -14,7 +14,7 @@ Inductive iex :=
 | IAdd (a b : iex) | ISub (a b : iex) | IMod (a b : iex).
 
 Inductive bex :=
-| BEq (a b : iex) | BNe (a b : iex) | BAnd (a b : bex)
+| BEq (a b : iex) | BNe (a b : iex) | BAnd (a b : bex) | BOr (a b : bex) | BNot (a : bex)
 | BSetup (s : string).          (* self.setup == s *)
 
 (* result of a branch of the label choice *)
